@@ -216,7 +216,7 @@ func genC18(r *rng, thorough bool, emit func(FlowScenario)) {
 						continue
 					}
 					t.next, t.errN = r.intn(30), r.intn(20)
-					cfg := BatchCfg{Budget: 1, Fb: "pass", Conc: conc, ExecS: "res", HasPost: true, Shape: shape, Build: r.pick([]string{"option", "builder"})}
+					cfg := BatchCfg{Budget: 1, Fb: "pass", Conc: conc, ExecS: "res", HasPost: true, Shape: shape, Build: r.pick([]string{"option", "builder", "bare"})}
 					bs := randBatchScript(t, 0, 0, &cfg, size, 0, post)
 					emit(FlowScenario{Kind: "canceled", Ctx0: "live", Nodes: []NodeDef{{ID: 0, Batch: &cfg}},
 						LeafScripts: []LeafScript{}, BatchScripts: []BatchScript{bs}, Steps: []Step{{Run: ip(0)}}})
